@@ -322,6 +322,7 @@ type modTarget struct {
 	key   string
 	obj   string // "" = whole array / ghost variable
 	whole bool
+	fresh bool // only objects allocated by the callee (pre-existing objects keep their contents)
 }
 
 func (e *Env) resolveModifies(entries []string) (targets []modTarget, all bool) {
@@ -347,6 +348,32 @@ func (e *Env) resolveModifies(entries []string) (targets []modTarget, all bool) 
 			gv := e.ghostVal(g.cs.Ghosts[m])
 			_ = gv
 			targets = append(targets, modTarget{key: "G|" + m, whole: true})
+			continue
+		}
+		if strings.HasPrefix(m, "fresh(") && strings.HasSuffix(m, ")") {
+			x := strings.TrimSpace(m[6 : len(m)-1])
+			switch {
+			case strings.HasSuffix(x, ".*"):
+				T, _ := e.resolveType(strings.TrimSuffix(x, ".*"))
+				st, ok := T.Underlying().(*types.Struct)
+				if !ok {
+					cxFail("modifies %s: not a struct type", m)
+				}
+				for i := 0; i < st.NumFields(); i++ {
+					targets = append(targets, modTarget{key: g.fieldKey(T, i), whole: true, fresh: true})
+				}
+			case strings.HasPrefix(x, "[]"):
+				T, _ := e.resolveType(x[2:])
+				targets = append(targets, modTarget{key: g.arrKey(T), whole: true, fresh: true})
+			case strings.HasPrefix(x, "map["):
+				i := strings.Index(x, "]")
+				K, _ := e.resolveType(x[4:i])
+				V, _ := e.resolveType(x[i+1:])
+				kd, kv := g.mapKeys(types.NewMap(K, V))
+				targets = append(targets, modTarget{key: kd, whole: true, fresh: true}, modTarget{key: kv, whole: true, fresh: true})
+			default:
+				cxFail("modifies %s: use fresh(T.*), fresh([]T) or fresh(map[K]V)", m)
+			}
 			continue
 		}
 		if strings.HasPrefix(m, "umaps(") && strings.HasSuffix(m, ")") {
@@ -514,7 +541,11 @@ func (fc *FnCtx) applyContract(ins ssa.Instruction, c *Contract, name string, si
 			targets = nil
 		}
 		for _, t := range targets {
-			if t.whole {
+			if t.whole && t.fresh {
+				oldK := g.get(fc.cur, t.key)
+				g.havocKey(fc.cur, t.key, name)
+				fc.assume(fmt.Sprintf("(forall ((|o| Int)) (! (=> (<= |o| %s) (= (select %s |o|) (select %s |o|))) :pattern ((select %s |o|))))", g.get(old, "$alloc"), g.get(fc.cur, t.key), oldK, g.get(fc.cur, t.key)), "objects that existed before the call keep their contents")
+			} else if t.whole {
 				g.havocKey(fc.cur, t.key, name)
 			} else {
 				ki := g.keys[t.key]
